@@ -151,5 +151,5 @@ Example C25_example :
   structural (snd r) =
     [E 8 3 0; E 9 1 0; E 9 0 0; E 1 0 0; E 2 0 0; E 1 1 0; E 2 1 0; E 3 2 0; E 4 2 0] /\
   snd (step F (Active 2) End) = [E 8 2 0; E 8 1 0; E 8 0 0] /\
-  In [None; Some 0; Some 1; Some 1; Some 0] (forests_le 6).
-Proof. vm_compute. repeat split. repeat (try (left; reflexivity); right). Qed.
+  existsb (list_eqb option_nat_eqb [None; Some 0; Some 1; Some 1; Some 0]) (forests_le 6) = true.
+Proof. vm_compute. repeat split. Qed.
